@@ -317,6 +317,68 @@ fn run_small_on_stored(limit: u32, opcode: u8, stored: &[u8]) -> Result<Option<(
     Ok(None)
 }
 
+/// A slow but steady upload of an oversized body whose bytes are themselves well-formed requests
+/// (a store of the key "evil", then noops): header, extras and key first, then the body in pieces of
+/// whole frames, `gap` seconds of virtual time apart, the whole upload lasting longer than the idle
+/// timeout while no single pause does.  Whatever the server does with such a client - drop it when
+/// the timeout strikes, or hold on and answer 0x03 at the end - the body of a refused request is
+/// never executed: no embedded request is answered, and "evil" is never stored.
+fn run_paced_frames(limit: u32, opcode: u8, gap: u64) -> Result<Option<(String, String)>, String> {
+    let evil = Req::store(op::SET, b"evil", b"x", 0xe1, 0, 0).opaque(0xe11).bytes();
+    let noop = Req::bare(op::NOOP).opaque(0xe12).bytes();
+    let c = Case { limit, body_len: 0, opcode, position: 0, b: 0, pregrown: false, shape: 0 };
+    let mut r = oversized_req(&c);
+    r.value.clear();
+    // pieces of whole frames; the first frame of every piece is the store
+    let per_piece = 12usize;
+    let n_pieces = (limit as usize / (per_piece * noop.len())) + 4;
+    let mut pieces: Vec<Vec<u8>> = vec![];
+    for _ in 0..n_pieces {
+        let mut pc = evil.clone();
+        for _ in 0..per_piece {
+            pc.extend_from_slice(&noop);
+        }
+        pieces.push(pc);
+    }
+    for pc in &pieces {
+        r.value.extend_from_slice(pc);
+    }
+    let bytes = r.bytes();
+    let head_len = bytes.len() - r.value.len();
+    let w = net::NetWorld::new(NetCfg { item_limit: limit, ..Default::default() })?;
+    let mut cl = w.connect()?;
+    let _ = cl.step(&w, &bytes[..head_len]);
+    for pc in &pieces {
+        w.advance(gap);
+        if cl.step(&w, pc).is_err() {
+            break;
+        }
+    }
+    let _ = cl.step(&w, &Req::bare(op::NOOP).opaque(0xf00d).bytes());
+    w.settle();
+    cl.pump();
+    let (resps, _) = wire::split_responses(&cl.got);
+    let stored_evil = w.dump().iter().any(|d| d.key == b"evil");
+    let answered: Vec<String> = resps.iter().filter(|x| x.opaque == 0xe11 || x.opaque == 0xe12).map(|x| x.short()).collect();
+    if stored_evil || !answered.is_empty() {
+        return Ok(Some((
+            "oversized-skip|paced-upload-of-well-formed-frames".to_string(),
+            format!(
+                "limit={} op={} body of {} bytes made of well-formed requests, uploaded in {} pieces {} s apart (idle timeout 60 s): {} embedded requests were answered ({}){} - the body of a refused request must be discarded, never executed",
+                limit,
+                wire::op_name(opcode),
+                r.value.len(),
+                pieces.len(),
+                gap,
+                answered.len(),
+                answered.iter().take(3).cloned().collect::<Vec<_>>().join(" "),
+                if stored_evil { "; the key \"evil\" carried inside the body is now stored" } else { "" }
+            ),
+        )));
+    }
+    Ok(None)
+}
+
 /// Two clients discard oversized bodies at the same time: A has sent its header and part of the
 /// body and pauses; B sends a whole oversized request (header first, body later) and a follower
 /// and must be answered while A is still in the middle of its body; then A finishes.
@@ -504,6 +566,31 @@ pub fn check(tier: Tier, threads: usize) -> CheckOutcome {
             Ok(None) => {}
         }
     }
+    // slow, steady uploads of oversized bodies made of well-formed requests, across the idle timeout
+    let mut paced: Vec<(u32, u8, u64)> = vec![];
+    for &limit in &[1024u32, 4096] {
+        for opc in [op::SET, op::ADD, op::APPEND, op::SETQ, op::GET, op::INCR] {
+            for gap in [7u64, 25, 45] {
+                paced.push((limit, opc, gap));
+            }
+        }
+    }
+    let pres = par_map(&paced, threads, |_, (l, o, g)| run_paced_frames(*l, *o, *g));
+    for ((l, o, g), r) in paced.iter().zip(pres.iter()) {
+        chunks += 8;
+        match r {
+            Err(e) => mach = Some(format!("paced frames op {:#x}: {}", o, e)),
+            Ok(Some((sig, what))) => {
+                failing += 1;
+                found.entry(sig.clone()).or_insert(Violation {
+                    signature: sig.clone(),
+                    what: what.clone(),
+                    replay: json!({"engine": "c13", "case": what, "paced_frames": true, "limit": l, "opcode": o, "gap": g}),
+                });
+            }
+            Ok(None) => {}
+        }
+    }
     // limits above the 1 MiB default: items near and above 1 MiB grown by append / prepend
     let mut big: Vec<(u32, usize, u8)> = vec![];
     for (limit, stored) in [(4u32 << 20, (1usize << 20) - 100), (4 << 20, 2 << 20), (2 << 20, (1 << 20) + 5000)] {
@@ -599,6 +686,7 @@ pub fn check(tier: Tier, threads: usize) -> CheckOutcome {
             "within_limit_any_opcode_scenarios": within.len(),
             "two_clients_discarding_at_once_scenarios": two.len(),
             "concat_on_large_item_under_big_limit_scenarios": big.len(),
+            "paced_uploads_of_well_formed_frames_across_the_idle_timeout": paced.len(),
             "scenarios_failing": failing,
             "limits": limits,
             "samples": samples,
@@ -620,6 +708,15 @@ pub fn replay(v: &serde_json::Value) -> Result<Option<String>, String> {
         let (l, sz, o) = (v["limit"].as_u64().unwrap_or(4 << 20) as u32, v["stored"].as_u64().unwrap_or(0) as usize, v["opcode"].as_u64().unwrap_or(0) as u8);
         let a = run_concat_under_big_limit(l, sz, o)?;
         let b = run_concat_under_big_limit(l, sz, o)?;
+        if a != b {
+            return Err("two replays of the same scenario differ".into());
+        }
+        return Ok(a.map(|(s, w)| format!("{}: {}", s, w)));
+    }
+    if v["paced_frames"].as_bool() == Some(true) {
+        let (l, o, g) = (v["limit"].as_u64().unwrap_or(1024) as u32, v["opcode"].as_u64().unwrap_or(1) as u8, v["gap"].as_u64().unwrap_or(25));
+        let a = run_paced_frames(l, o, g)?;
+        let b = run_paced_frames(l, o, g)?;
         if a != b {
             return Err("two replays of the same scenario differ".into());
         }
